@@ -191,6 +191,9 @@ class Continuous(AgentSchedulingComponent):
         lfs_free = node['lfs']
         mem_free = node['mem']
 
+        # gpu shares handed out by this call (the node map is only updated later)
+        gpu_used = dict()
+
         # find at most `n_slots`
         loop_core_idx = 0
         loop_gpu_idx  = 0
@@ -264,9 +267,12 @@ class Continuous(AgentSchedulingComponent):
                 for gpu_idx,gpu_occ in enumerate(node['gpus'][loop_gpu_idx:],
                                                               loop_gpu_idx):
 
-                    if gpus_per_slot <= rpc.BUSY - gpu_occ:
+                    if gpus_per_slot <= rpc.BUSY - gpu_occ \
+                                                 - gpu_used.get(gpu_idx, 0.0):
                         slot['gpus'].append(RO(index=gpu_idx,
                                                occupation=gpus_per_slot))
+                        gpu_used[gpu_idx] = gpu_used.get(gpu_idx, 0.0) \
+                                          + gpus_per_slot
                         break
                     else:
                         loop_gpu_idx = gpu_idx + 1
